@@ -11,7 +11,19 @@ m = ml.Molecule(name="g")
 for i, el in enumerate(["C", "O", "H"]):
     m.add_atom(ml.Atom(el, label=f"{el}{i}"), [1.25 * (i + 1), -1234.5 * i, 12345.0 + i], 0.0)
 m.connect(0, 1)
-if w.get("op") == "ensemble-units":
+if w.get("op") == "xyz-empty":
+    for cls_ in (ml.Molecule, ml.Structure, ml.CartesianGeometry):
+        g = cls_(name="nothing")
+        txt = g.dumps_xyz()
+        if not txt.strip():
+            continue                    # nothing written for this class: nothing to read back
+        try:
+            r = cls_.loads_xyz(txt)
+            if r.n_atoms != 0 or r.coords.shape != (0, 3):
+                bad.append(f"{cls_.__name__} without atoms read back with {r.n_atoms} atoms / coords {r.coords.shape}")
+        except BaseException as ex:
+            bad.append(f"{cls_.__name__} without atoms: molli cannot read its own xyz text {txt!r}: {type(ex).__name__}: {str(ex)[:70]}")
+elif w.get("op") == "ensemble-units":
     from io import StringIO
     e = ml.ConformerEnsemble(m, n_conformers=2)
     e.coords = np.stack([m.coords, m.coords + 1.5])
